@@ -35,6 +35,10 @@ type world struct {
 	// chain bookkeeping
 	chain    []*chainRec // committed blocks in order (index 0 = height 1)
 	included map[string]uint64
+	includedList [][]byte
+	mustFail     map[string]string // tx bytes -> "Cxx|kind": adversarial variants that must never execute
+	contentSeen  map[string]uint64
+	contentBytes map[string]string
 	txSeq    uint64
 	// reference ledgers
 	ledger *ledger
@@ -142,6 +146,9 @@ func (w *world) buildGenesis(nVals int) {
 	for i, kind := range []string{"ed25519", "secp256k1", "ethsecp", "ed25519"} {
 		a := addActor(kind, fmt.Sprintf("client%d", i), false)
 		amt := []uint64{30_000_000, 0, 1, 25_000_000, 100_000}[(i+t.Intn(5))%5]
+		if kind == "ethsecp" && t.Chance(2, 3) {
+			amt = 40_000_000
+		}
 		w.genesis.Accounts = append(w.genesis.Accounts, &fsm.Account{Address: a.addr, Amount: amt})
 	}
 	// pools: DAO and the reward pool of chain 1 start non-empty in some runs
